@@ -233,8 +233,38 @@ def generate(rng, tier):
     cases += gen_subclass(rng, tier)          # appended: the streams above are the same as before for a given seed
     cases += gen_lookalikes(rng, tier)        # appended after gen_subclass for the same reason
     from . import c15_interp
-    cases += c15_interp.gen(rng, tier)        # appended last: interpreter settings changed around the calls
+    cases += c15_interp.gen(rng, tier)        # appended: interpreter settings changed around the calls
+    cases += gen_named_words(rng, tier)       # appended last: words that NAME something in Python or in the library
     return cases
+
+
+def gen_named_words(rng, tier):
+    """Non-month words that are the name of something: attributes and methods of int / str / dict / list / type / enum members,
+    dunder names, builtins, keywords, the library's own magic words (selfref) - in several letter cases.  A look-up that goes
+    through getattr / a namespace / an enum instead of the month tables finds them (seeding round 11: an IntEnum month table
+    read with getattr - `real`, `imag`, `numerator`, `conjugate` raised).  By the property they are 'other words': returned
+    unchanged with their type by all three middlewares, alone and in every ordered pair; nothing raises."""
+    import builtins
+    import enum
+    import keyword
+    from props import selfref
+    names = set()
+    for o in (int, str, dict, list, tuple, set, type, object, float, bytes, enum.Enum, enum.IntEnum, enum.IntEnum("_E", {"a": 1})):
+        names.update(dir(o))
+    names.update(dir(builtins))
+    names.update(keyword.kwlist)
+    names.update(w for w in selfref.MAGIC_WORDS if isinstance(w, str))
+    names.update(["name", "value", "_value_", "_name_", "full_name", "abbreviation", "mro", "__members__", "_member_map_", "_missing_"])
+    words = sorted(w for w in names if w and len(w) <= 40)
+    out = []
+    quick = tier == "quick"
+    for i, w in enumerate(words):
+        forms = [w, w.upper(), w.capitalize()] if not quick or i % 3 == 0 else [w]
+        for f in forms:
+            seqs = SEQS if (not quick or i % 7 == 0) else SEQS[:3]
+            for seq in seqs:
+                out.append({"stream": "named-word", "input": {"value": jv(f), "mws": seq, "shape": 0}})
+    return out
 
 
 def spellings(m):
